@@ -285,10 +285,12 @@ def init_one(dt):
     return K.run_paths(f"C15/init_arnoldi[{dt}]", FN + "init_arnoldi", thunk, dict(engine="ARNOLDI", part="init", dtype=dt))
 
 
-def wrapper_one(dt, capcase):
+def wrapper_one(dt, capcase, prop="C15"):
     from vcgen.rules import sym_dim
     Ar = importlib.import_module("cola.linalg.decompositions.arnoldi")
-    dtype = np.float64 if dt == "real" else np.complex128
+    dtype = np.float64 if dt in ("real", "vcomplex") else np.complex128
+    vdtype = np.complex128 if dt == "vcomplex" else np.float64       # "vcomplex": a complex start vector for a real operator
+    wdtype = np.promote_types(dtype, vdtype)                          # the basis lives in the promoted dtype of operator and start vector
     rec = {}
 
     def thunk():
@@ -298,14 +300,14 @@ def wrapper_one(dt, capcase):
         CTX.assume(mi.term < n.term if capcase == "cap<n" else mi.term >= n.term)
         mcap = mi if capcase == "cap<n" else n
         A, a = idx.make_abstract_op("A", n, n, dtype)
-        v = IArr.const("v", (n,), np.float64)
+        v = IArr.const("v", (n,), vdtype)
         tol = SScal(z3.Real(CTX.fresh("tol")))
 
         def fact_stub(A=None, init_val=None, max_iters=None, tol=None, pbar=False):
             rec.update(A=A, init=init_val, max_iters=max_iters, tol=tol)
             Qi, Hi, ki, ni = init_val
-            Qf = state_array("Qfin", Qi.shape, Qi.dtype)
-            Hf = state_array("Hfin", Hi.shape, Hi.dtype)
+            Qf = state_array("Qfin", Qi.shape, wdtype)
+            Hf = state_array("Hfin", Hi.shape, wdtype)
             kf = SInt(z3.Int(CTX.fresh("idx_final")))
             CTX.assume(z3.And(kf.term >= 1, kf.term <= iterm(max_iters), kf.term <= iterm(Hi.shape[2])))      # exit contract of the loop: 1 <= steps run <= cap
             rec.update(Qf=Qf, Hf=Hf, kf=kf)
@@ -319,14 +321,21 @@ def wrapper_one(dt, capcase):
         goals = []
         goals.append(("the process runs on A with the caller's tolerance", z3.And(z3.BoolVal(rec.get("A") is A), SScal.lift(rec["tol"]).re == tol.re)))
         Q0, H0 = rec["init"][0], rec["init"][1]
-        goals.append(("the buffers have the operator's dtype", z3.And(z3.BoolVal(np.dtype(Q0.dtype) == np.dtype(dtype)), z3.BoolVal(np.dtype(H0.dtype) == np.dtype(dtype)))))
+        goals.append(("the buffers have the promoted dtype of operator and start vector (a complex start vector of a real operator keeps its imaginary part)",
+                      z3.And(z3.BoolVal(np.dtype(Q0.dtype) == np.dtype(wdtype)), z3.BoolVal(np.dtype(H0.dtype) == np.dtype(wdtype)))))
         kf = rec["kf"]
-        same("Q = columns 0..k of the basis buffer (k = steps run; no columns of steps that were not run)", Q.to_dense(),
-             arr((n, kf + 1), lambda r, j: one(rec["Qf"], z3.IntVal(0), r, j), dtype), goals)
+        Qd = Q.to_dense()
+        same("Q = columns 0..k of the basis buffer (k = steps run; no columns of steps that were not run)", Qd,
+             arr((n, kf + 1), lambda r, j: one(rec["Qf"], z3.IntVal(0), r, j), wdtype), goals)
         same("H = the leading (k+1) x k block of the Hessenberg buffer", H.to_dense(),
-             arr((kf + 1, kf), lambda r, j: one(rec["Hf"], z3.IntVal(0), r, j), dtype), goals)
+             arr((kf + 1, kf), lambda r, j: one(rec["Hf"], z3.IntVal(0), r, j), wdtype), goals)
+        labels = sorted(a_.__name__ for a_ in getattr(Q, "annotations", set()))
+        if labels and prop == "C05":
+            goals.append(("reported labels on Q: only Stiefel, and every returned column is one of the columns 0..k-1 of the final state, which the loop invariant "
+                          "(orthonormality obligations) makes orthonormal -- column k is a unit vector only if the last normalisation was not clipped (no breakdown, k < n)",
+                          z3.And(z3.BoolVal(set(labels) <= {"Stiefel"}), iterm(Qd.shape[1]) <= kf.term)))
         return goals
-    return K.run_paths(f"C15/arnoldi[{dt};{capcase}]", FN + "arnoldi", thunk, dict(engine="ARNOLDI", part="wrapper", dtype=dt, cap=capcase))
+    return K.run_paths(f"{prop}/arnoldi[{dt};{capcase}]", FN + "arnoldi", thunk, dict(engine="ARNOLDI", part="wrapper", dtype=dt, cap=capcase))
 
 
 def cap_one(capcase):
@@ -410,6 +419,9 @@ def eigs_one(dt):
 
 def run(chk):
     chk.level = "proof"
+    from props import alg_forwarding
+    from cola.linalg.decompositions.decompositions import Arnoldi as _Arnoldi
+    alg_forwarding.forwarding(chk, "C15", _Arnoldi)
     chk.trust("vcgen/idx.py + vcgen/kidx.py: NumPy primitives as index transformers; sums that no equality determines are atoms sumf(lo, hi, lambda); "
               "conjugation, real part and |.|^2 of complex entries are uninterpreted functions of the entry")
     chk.assume("modified Gram-Schmidt in exact arithmetic: the fold of the verified step over j = 0..idx against an orthonormal Q_0..Q_idx leaves w orthogonal to them, hence the "
@@ -420,7 +432,7 @@ def run(chk):
                 if alg.theorems_checked(["T_arnoldi_full_spectrum"]) else ""))
     chk.assume("the Householder variant (use_householder=True) and batched start vectors (xnp.vmap) are outside the domain")
     tasks = [("loop", "real"), ("loop", "complex"), ("init", "real"), ("init", "complex"), ("init", "mixed"),
-             ("wrapper", "real", "cap<n"), ("wrapper", "real", "cap>=n"), ("wrapper", "complex", "cap<n"), ("wrapper", "complex", "cap>=n"),
+             ("wrapper", "real", "cap<n"), ("wrapper", "real", "cap>=n"), ("wrapper", "complex", "cap<n"), ("wrapper", "complex", "cap>=n"), ("wrapper", "vcomplex", "cap<n"),
              ("eigs", "real"), ("eigs", "complex"), ("relation", "real"), ("relation", "complex"), ("cap", "cap<n"), ("cap", "cap>=n"), ("orth", "real"), ("orth", "complex")]
     for nm in ("arnoldi_fact", "init_arnoldi", "arnoldi", "arnoldi_eigs"):
         chk.under_contract(FN + nm)
